@@ -174,8 +174,11 @@ Fixpoint note_waits (wp : bool) (nl : nat) (s : bstate) (ts : list tid) : bstate
       end
   end.
 
-(* one turn of thread t (which must be enabled) *)
-Definition turn_g (ra : bool) (wp : bool) (e : env) (nl : nat) (s : bstate) (t : tid) : bstate :=
+(* one turn of thread t (which must be enabled).  With [yr] (and not [ra]) a thread that has just performed a release
+   pauses: it is left parked on an operation without any effect (reading a kill flag) in front of the rest of its
+   program, and runs on at its next turn. *)
+Definition pause_op : op := OKilled 0.
+Definition turn_g (ra yr : bool) (wp : bool) (e : env) (nl : nat) (s : bstate) (t : tid) : bstate :=
   let th := get_thr (b_thr s) t in
   if negb (th_started th) then
     let '(th', w', evs') := drain_calls ra false e t (th_loc th) (th_rest th) (b_w s) (b_evs s) in
@@ -186,21 +189,25 @@ Definition turn_g (ra : bool) (wp : bool) (e : env) (nl : nat) (s : bstate) (t :
         let lr := match parked th with Some op => is_rel_op op | None => false end in
         match step (pendw wp (b_thr s) t) t p (clear_trace (b_w s)) with
         | SStep p' w1 =>
-            let '(th', w', evs') := settle ra lr e t o (th_loc th) (th_rest th) p' w1 (wrap (w_trace w1) ++ b_evs s) in
-            mkb w' (set_nth (b_thr s) t th') evs' (set_nth (b_noted s) t false)
+            if yr && negb ra && lr then
+              mkb w1 (set_nth (b_thr s) t (mkthr (Some (o, Op pause_op (fun _ => p'))) (th_rest th) (th_loc th) true false))
+                  (wrap (w_trace w1) ++ b_evs s) (set_nth (b_noted s) t false)
+            else
+              let '(th', w', evs') := settle ra lr e t o (th_loc th) (th_rest th) p' w1 (wrap (w_trace w1) ++ b_evs s) in
+              mkb w' (set_nth (b_thr s) t th') evs' (set_nth (b_noted s) t false)
         | _ => s
         end
     | None => s
     end.
-Definition turn := turn_g false.
+Definition turn := turn_g false false.
 
-Fixpoint run_sched_g (ra : bool) (wp : bool) (e : env) (nl : nat) (s : bstate) (sched : list tid) : bstate * bool :=
+Fixpoint run_sched_g (ra yr : bool) (wp : bool) (e : env) (nl : nat) (s : bstate) (sched : list tid) : bstate * bool :=
   let s := note_waits wp nl s (seq 0 (length (b_thr s))) in
   match sched with
   | [] => (s, true)
-  | t :: r => if enabled wp s t then run_sched_g ra wp e nl (turn_g ra wp e nl s t) r else (s, false)
+  | t :: r => if enabled wp s t then run_sched_g ra yr wp e nl (turn_g ra yr wp e nl s t) r else (s, false)
   end.
-Definition run_sched := run_sched_g false.
+Definition run_sched := run_sched_g false false.
 
 Inductive bstatus := BDone | BDeadlock | BSelfWait | BUnfinished | BBadSchedule.
 
@@ -221,7 +228,11 @@ Definition status_of (wp : bool) (s : bstate) (sched_ok : bool) : bstatus :=
 
 Record bobs := mkbo { bo_status : bstatus; bo_evs : list bev; bo_holds : list rawst; bo_psn : list bool }.
 
-Record bscen := mkbs { bs_sc : scen; bs_wp : bool; bs_progs : list (list apiop) }.
+(* bs_yr ("yield after release"): a thread that has just released a lock pauses before doing anything else — an extra
+   scheduling point that lets the other threads observe the state between a release and what the releasing code does next
+   (set a poison flag, drop its key, ...) *)
+Record bscen := mkbs4 { bs_sc : scen; bs_wp : bool; bs_yr : bool; bs_progs : list (list apiop) }.
+Definition mkbs (sc : scen) (wp : bool) (progs : list (list apiop)) : bscen := mkbs4 sc wp false progs.
 
 Definition binit (b : bscen) : bstate :=
   mkb (sc_world (bs_sc b)) (map (fun ops => mkthr None ops tl0 false false) (bs_progs b)) []
@@ -229,7 +240,7 @@ Definition binit (b : bscen) : bstate :=
 
 Definition model_bobs_g (ra : bool) (b : bscen) (sched : list tid) : bobs :=
   let sc := bs_sc b in
-  let '(s, ok) := run_sched_g ra (bs_wp b) (sc_env sc) (sc_nlocks sc) (binit b) sched in
+  let '(s, ok) := run_sched_g ra (bs_yr b) (bs_wp b) (sc_env sc) (sc_nlocks sc) (binit b) sched in
   mkbo (status_of (bs_wp b) s ok) (rev (b_evs s)) (snapshot_holds (sc_nlocks sc) (b_w s))
        (snapshot_psn (sc_npids sc) (b_w s)).
 Definition model_bobs := model_bobs_g false.
@@ -297,18 +308,18 @@ Definition rk_of (sc : scen) (l : lock) : nat :=
 Definition bound_of (sc : scen) : nat := S (list_max (sc_laddr sc ++ sc_uaddr sc)) * 16 + 16.
 
 (* the test holds in every state the schedule goes through *)
-Fixpoint stable_along_g (ra : bool) (nl : nat) (wp : bool) (rk : lock -> nat) (N : nat) (e : env) (s : bstate) (sched : list tid) : bool :=
+Fixpoint stable_along_g (ra yr : bool) (nl : nat) (wp : bool) (rk : lock -> nat) (N : nat) (e : env) (s : bstate) (sched : list tid) : bool :=
   let s := note_waits wp nl s (seq 0 (length (b_thr s))) in
   stable_b nl wp rk N s &&
   match sched with
   | [] => true
-  | t :: r => if enabled wp s t then stable_along_g ra nl wp rk N e (turn_g ra wp e nl s t) r else true
+  | t :: r => if enabled wp s t then stable_along_g ra yr nl wp rk N e (turn_g ra yr wp e nl s t) r else true
   end.
-Definition stable_along := stable_along_g false.
+Definition stable_along := stable_along_g false false.
 
 Definition model_stable_g (ra : bool) (b : bscen) (sched : list tid) : bool :=
   let sc := bs_sc b in
-  stable_along_g ra (sc_nlocks sc) (bs_wp b) (rk_of sc) (bound_of sc) (sc_env sc) (binit b) sched.
+  stable_along_g ra (bs_yr b) (sc_nlocks sc) (bs_wp b) (rk_of sc) (bound_of sc) (sc_env sc) (binit b) sched.
 Definition model_stable := model_stable_g false.
 
 (* the schedule the harness actually follows: entries naming a thread that cannot move are skipped; when the
